@@ -6,7 +6,7 @@ sys.path.insert(0, os.path.join(os.path.dirname(os.path.abspath(__file__)), ".."
 import engine_check  # noqa: E402
 import monitors_engine as M  # noqa: E402
 
-LEAN_MODULES = ["KmipModel.Props.C14"]
+LEAN_MODULES = ["KmipModel.Props.C14", "KmipModel.Props.C14Table"]
 RULE = ("random stores (mixed object types, owners, policies, states, dates with ties) x conjunctions of 0-4 filters "
         "drawn from the attributes the property lists (incl. filters inapplicable to some stored types and repeated "
         "dates) x offset/maximum pairs x requesters; the expected identifier list is recomputed from the store dump by "
